@@ -158,9 +158,11 @@ def render_event(ev, pending):
 class Player:
     """the device script shared by every port object opened during one history"""
 
-    def __init__(self, reads, writes):
+    def __init__(self, reads, writes, closes=(), resets=()):
         self.reads = list(reads)          # symbolic read events, consumed left to right
         self.writes = list(writes)        # 'o' / 'x'
+        self.closes = list(closes)        # outcomes of port.close(): 'o' or a fault char of WRITE_CHARS; exhausted = 'o'
+        self.resets = list(resets)        # the same for port.reset_input_buffer()
         self.pending = ''                 # last request handed to write (trimmed of the final CR)
         self.written = []                 # every text handed to write (str), including raised ones
         self.read_log = []                # concrete outcomes of reads so far: str or Raised
@@ -220,10 +222,21 @@ class FakePort:
         return out.encode('ascii')
 
     def close(self):
-        self.player.closed += 1
+        p = self.player
+        p.closed += 1
+        o = p.closes.pop(0) if p.closes else 'o'
+        p.events.append(('c', o))         # a close() call and its scripted outcome
+        if o != 'o':
+            raise make_exc(WRITE_CHARS[o], 'close')
 
     def reset_input_buffer(self):
-        pass
+        p = self.player
+        o = p.resets.pop(0) if p.resets else 'o'
+        if o != 'o' and p.in_connect:
+            o = 'x'                       # connect()'s handshake only contains SerialException (C15's domain)
+        p.events.append(('z', o))
+        if o != 'o':
+            raise make_exc(WRITE_CHARS[o], 'reset_input_buffer')
 
 
 # ----------------------------------------------------------------------------------------------
@@ -368,7 +381,7 @@ def real_calls(calls):
     return [c for c in calls if not c[0].startswith('@')]
 
 
-def run_history(state, reads, writes, calls):
+def run_history(state, reads, writes, calls, closes=(), resets=()):
     """Run `calls` on a real EBBMotionWrap.  Returns (records, player).  Each record is a dict with the
     observations of one call.  Pseudo-calls `('@other', (kind,))` run side activity on another instance and
     produce no record."""
@@ -381,7 +394,7 @@ def run_history(state, reads, writes, calls):
         SerialException = real_serial.SerialException
         serialutil = real_serial.serialutil
 
-    player = Player(reads, writes)
+    player = Player(reads, writes, closes, resets)
     obj = watched_class()()
     player.obj = obj
     object.__setattr__(obj, '_verif_player', player)
@@ -627,10 +640,18 @@ def rand_reads(rng, n, fault_rate=0.25):
 # scenarios
 # ----------------------------------------------------------------------------------------------
 class Scenario:
-    __slots__ = ('state', 'reads', 'writes', 'calls', 'tag', 'focus')
+    """`closes` / `resets`: scripted outcomes of port.close() / port.reset_input_buffer() ('o' or a fault char of
+    WRITE_CHARS).  The Lean model's `disconnect` has no close-fault outcome, so a scenario that scripts one is judged
+    by the oracle only (no model / regenerated-code comparison): `oracle_only`."""
+    __slots__ = ('state', 'reads', 'writes', 'calls', 'tag', 'focus', 'closes', 'resets')
 
-    def __init__(self, state, reads, writes, calls, tag, focus=0):
+    def __init__(self, state, reads, writes, calls, tag, focus=0, closes=(), resets=()):
         self.state, self.reads, self.writes, self.calls, self.tag, self.focus = state, reads, writes, calls, tag, focus
+        self.closes, self.resets = list(closes), list(resets)
+
+    @property
+    def oracle_only(self):
+        return any(c != 'o' for c in self.closes) or any(c != 'o' for c in self.resets)
 
 
 def jsonable(sc, creads, cwrites):
@@ -639,7 +660,9 @@ def jsonable(sc, creads, cwrites):
                       'caller': sc.state.caller, 'port_name': sc.state.port_name},
             'reads': [(None if o.key == 'serial' else {'raise': o.key}) if is_raise(o) else o for o in creads],
             'writes': ''.join(cwrites),
-            'calls': [[n, list(a)] for n, a in sc.calls], 'tag': sc.tag}
+            'calls': [[n, list(a)] for n, a in sc.calls], 'tag': sc.tag,
+            **({'closes': ''.join(sc.closes)} if sc.closes else {}),
+            **({'resets': ''.join(sc.resets)} if sc.resets else {})}
 
 
 def from_json(d):
@@ -647,7 +670,8 @@ def from_json(d):
     reads = [('raise', 'serial') if o is None else ('raise', o['raise']) if isinstance(o, dict) else ('line', o)
              for o in d['reads']]
     calls = [(n, tuple(a)) for n, a in d['calls']]
-    return Scenario(st, reads, list(d['writes']), calls, d.get('tag', 'replay'))
+    return Scenario(st, reads, list(d['writes']), calls, d.get('tag', 'replay'), closes=list(d.get('closes', '')),
+                    resets=list(d.get('resets', '')))
 
 
 GOOD = ('good', DEFAULT_PAY)
@@ -836,26 +860,38 @@ def random_scenarios(rng, n, maxlen=30):
 
 
 def run_scenarios(ctx, scenarios, oracle, what, ignore=None):
-    """run implementation, then the model on the concrete scripts (one driver batch), compare, judge"""
+    """run implementation, then the model on the concrete scripts (one driver batch), compare, judge.  Scenarios with a
+    scripted close() / reset_input_buffer() fault (`oracle_only`) are judged by the oracle only: the model has no such
+    outcome."""
     done = []
     lines = []
     pl_of = {}
     for sc in scenarios:
-        recs, pl = run_history(sc.state, sc.reads, sc.writes, sc.calls)
+        recs, pl = run_history(sc.state, sc.reads, sc.writes, sc.calls, sc.closes, sc.resets)
         pl_of[id(recs)] = pl
         creads, cwrites = pl.concrete_script()
-        lines.append(model_line(sc.state, creads, cwrites, sc.calls))
+        if not sc.oracle_only:
+            lines.append(model_line(sc.state, creads, cwrites, sc.calls))
         done.append((sc, recs, creads, cwrites))
+    modelled = [d for d in done if not d[0].oracle_only]
     answers = ctx.driver.batch(lines) if ctx.driver else [None] * len(lines)
     gen_on = bool(getattr(ctx, 'gen_stream', False)) and ctx.driver is not None
-    ganswers = ctx.driver.batch([gen_line(sc.state, cr, cw, sc.calls) for sc, _, cr, cw in done]) if gen_on else [None] * len(lines)
-    for (sc, recs, creads, cwrites), ans, gans in zip(done, answers, ganswers):
+    ganswers = ctx.driver.batch([gen_line(sc.state, cr, cw, sc.calls) for sc, _, cr, cw in modelled]) if gen_on else [None] * len(lines)
+    ans_of = {id(d[1]): (a, g) for d, a, g in zip(modelled, answers, ganswers)}
+    n_oracle_only = 0
+    for (sc, recs, creads, cwrites) in done:
         desc = jsonable(sc, creads, cwrites)
         judge_side(ctx, desc, pl_of[id(recs)], what)
-        compare(ctx, desc, recs, ans, what, (lambda k, r, outs, _sc=sc, _recs=recs: ignore(_sc, _recs, k, r, outs)) if ignore else None)
-        if gen_on:
-            compare_gen(ctx, desc, recs, gans, what)
+        if sc.oracle_only:
+            n_oracle_only += 1
+        else:
+            ans, gans = ans_of[id(recs)]
+            compare(ctx, desc, recs, ans, what, (lambda k, r, outs, _sc=sc, _recs=recs: ignore(_sc, _recs, k, r, outs)) if ignore else None)
+            if gen_on:
+                compare_gen(ctx, desc, recs, gans, what)
         oracle(ctx, sc, recs, desc)
+    if n_oracle_only:
+        ctx.__dict__['_oracle_only'] = ctx.__dict__.get('_oracle_only', 0) + n_oracle_only
     return len(done)
 
 
@@ -1073,3 +1109,65 @@ def two_object_scenarios():
         yield Scenario(State(port=True), [GOOD] * 8, [], [q] + side + [m, q], 'two-objects:healthy')
         yield Scenario(State(port=False), [GOOD] * 8, [], side + [m] + side + [('connect', (None, None, 'COM3', True)), q],
                        'two-objects:unconnected')
+
+
+# ----------------------------------------------------------------------------------------------
+# faults of port.close() / port.reset_input_buffer()  (oracle-only stream: the model's disconnect always succeeds)
+# ----------------------------------------------------------------------------------------------
+F12_KEY = 'F12-disconnect-close-oserror'
+
+
+def close_fault_classes(recs, upto=None):
+    """fault chars of the close() calls made in recs[:upto+1]"""
+    out = []
+    for r in (recs if upto is None else recs[:upto + 1]):
+        out += [ev[1] for ev in r['events'] if ev[0] == 'c' and ev[1] != 'o']
+    return out
+
+
+def close_fault_scenarios():
+    """close() raising each serial I/O exception class in disconnect(), in the disconnect() inside reboot() / bootload()
+    / a failed connect(), each followed by requests rotating through every request method, then connect() and a request
+    again; reset_input_buffer() raising inside connect()"""
+    goodv = ('line', 'EBBv13_and_above EB Firmware Version 3.0.2\r\n')
+    hand = [goodv, ('line', 'CU\r\n'), ('line', 'QT,Bob\r\n')]
+    conn = ('connect', (None, None, 'COM3', True))
+    rm = request_methods()
+    k = 0
+    for ch in 'xpei':
+        cls = WRITE_CHARS[ch]
+        for j in range(len(rm)):
+            k += 1
+            fu = followups(j)
+            # the coordinator's history: connect(); disconnect() [close raises]; requests; connect(); request
+            yield Scenario(State(port=False), hand + [GOOD] * 4 + hand + [GOOD] * 6, [],
+                           [conn, ('disconnect', ())] + fu + [conn, fu[0]], f'close:{cls}:connect-disconnect', closes=[ch])
+            yield Scenario(State(port=True), [GOOD] * 8, [], [('disconnect', ())] + fu, f'close:{cls}:disconnect', closes=[ch])
+            closer = ('reboot', 'bootload')[j % 2]
+            yield Scenario(State(port=True), [GOOD] * 8, [], [(closer, ())] + fu, f'close:{cls}:{closer}', closes=[ch])
+        # failed connect: not verified (both probes answer garbage) / handshake read raises: disconnect() inside connect
+        for pre, tag in (([('line', 'garbage\r\n')] * 2, 'unverified'), ([('raise', 'serial')], 'probe-raise')):
+            for nclose in (1, 2):
+                yield Scenario(State(port=False), pre + [GOOD] * 6, [], [conn] + followups(k) + [('disconnect', ())] + followups(k + 1),
+                               f'close:{cls}:connect-{tag}', closes=[ch] * nclose)
+        # twice in a row, and a clean close after a faulty one
+        yield Scenario(State(port=True), [GOOD] * 8, [], [('disconnect', ()), ('disconnect', ())] + followups(k),
+                       f'close:{cls}:twice', closes=[ch, ch])
+        yield Scenario(State(port=True, err='first error'), [GOOD] * 8, [], [('disconnect', ())] + followups(k),
+                       f'close:{cls}:latched', closes=[ch])
+        # reset_input_buffer(): first call is inside connect()'s try, second after the CU exchange
+        for resets in ([ch], ['o', ch]):
+            yield Scenario(State(port=False), hand + [GOOD] * 6, [], [conn] + followups(k) + [('disconnect', ())] + followups(k + 2),
+                           f'reset:{cls}:{len(resets)}', resets=resets)
+
+
+def random_close_scenarios(rng, n, maxlen=16):
+    for sc in random_scenarios(rng, n, maxlen):
+        sc.calls = list(sc.calls)
+        for _ in range(rng.randint(1, 3)):
+            sc.calls.insert(rng.randint(0, len(sc.calls)), (rng.choice(['disconnect', 'disconnect', 'reboot', 'bootload']), ()))
+        sc.closes = [rng.choice('oxxpei') for _ in range(rng.randint(1, 4))]
+        if rng.random() < 0.3:
+            sc.resets = [rng.choice('oox') for _ in range(rng.randint(1, 2))]
+        sc.tag = 'random-close'
+        yield sc
